@@ -94,7 +94,7 @@ class BuiltinMixin:
         return args[1]
 
     def bi_bool(self, args, kwargs, st, node):
-        return SV(BOOL, self.truthy(args[0]))
+        return SV(BOOL, self.truthy(args[0], st))
 
     def bi_isinstance(self, args, kwargs, st, node):
         v, c = args
@@ -209,6 +209,9 @@ class BuiltinMixin:
             return v
         if isinstance(v.t, TInt):
             return SV(STR, self.dec_str(v.z, st))
+        g = self.ghost_str(v, st)
+        if g is not None:
+            return SV(STR, g)
         return sym.fresh(STR, "str")
 
     def bi_repr(self, args, kwargs, st, node):
